@@ -190,6 +190,11 @@ def cleanup():
 
 
 _FILE_NO = [0]
+SKIPS = {}
+
+
+def _skip(why):
+    SKIPS[why] = SKIPS.get(why, 0) + 1
 
 
 def call_impl(f, kwargs, with_file):
@@ -235,6 +240,17 @@ def _names_from(desc):
         else:
             out.append(np.str_(''.join(chr(c) for c in v)))
     return out
+
+
+def _names_arg(desc, as_array):
+    """the `names` argument: a list, an object ndarray (True) or a str-dtype ndarray ('str': the documented type;
+    numpy drops trailing NULs, the model receives what `str(name)` gives)"""
+    names = _names_from(desc)
+    if names is None or not as_array:
+        return names
+    if as_array == 'str':
+        return np.array([str(x) for x in names]) if names else np.array([], dtype='U1')
+    return np.array(names, dtype=object)
 
 
 def _matrix(shape, indptr, indices, data, dtype):
@@ -338,6 +354,8 @@ def graph_case(desc):
     if pos is not None:
         kwargs['position'] = np.array(pos, dtype=float)
         mpos = [(Fraction(x), Fraction(y)) for x, y in pos]
+    elif not has_adj:
+        mpos = []           # neither adjacency nor position: the code raises
     else:
         # Spring is external: its layout is an input of the model
         tmp = adj.copy()
@@ -346,11 +364,12 @@ def graph_case(desc):
         try:
             sp = Spring().fit_transform(tmp)
         except Exception:
+            _skip('Spring raised')
             return None
         mpos = [(Fraction(float(x)), Fraction(float(y))) for x, y in sp]
-    names = _names_from(desc.get('names'))
+    names = _names_arg(desc.get('names'), desc.get('names_array'))
     if names is not None:
-        kwargs['names'] = np.array(names, dtype=object) if desc.get('names_array') else names
+        kwargs['names'] = names
     toks = ['n=%d' % n, 'has_adj=%d' % int(has_adj), 'has_pos=%d' % int(pos is not None), 'es=' + enc_entries(es),
             'pos=' + enc_pos(mpos), 'names=' + enc_names(names)]
     if 'name_position' in o:
@@ -395,13 +414,22 @@ def graph_case(desc):
         toks.append('directed=' + enc_opt(o['directed'], lambda b: str(int(b))))
     toks += _common_tokens(o)
     f = svg_graph if desc.get('alias') else visualize_graph
-    if pos is None:
+    if pos is None and has_adj:
         np.random.seed(desc['spring_seed'])
     ans, doc, content = call_impl(f, kwargs, desc.get('file', False))
-    if has_adj and o.get('check_unmodified', True):
-        pass
+    # the count statement is about a canvas with a non-zero dimension and scale, and nodes inside the layout
     degenerate = not ((o.get('width', 400) or o.get('height', 300)) and o.get('scale', 1))
-    return _mk_case('graph', 'visualize_graph', desc, toks, ans, doc, content, spec=not degenerate)
+    near = desc.get('near')
+    extra = []
+    if near:
+        # positions closer than the resolution of float64 after rescaling: the exact model does not describe the float
+        # decision; the count of edge paths must lie between "these nodes coincide" and "they do not"
+        lo = [list(p) for p in pos]
+        for i, j in near:
+            lo[j] = lo[i]
+        extra = ['pos_lo=' + enc_pos([(Fraction(x), Fraction(y)) for x, y in lo])]
+    return _mk_case('graph', 'visualize_graph', desc, toks, ans, doc, content, spec=not degenerate,
+                    run=not near, spec_extra=extra)
 
 
 def bigraph_case(desc):
@@ -413,7 +441,7 @@ def bigraph_case(desc):
     kwargs = {'biadjacency': b}
     toks = ['n_row=%d' % nr, 'n_col=%d' % nc, 'es=' + enc_entries(es)]
     for side in ('row', 'col'):
-        names = _names_from(desc.get('names_' + side))
+        names = _names_arg(desc.get('names_' + side), desc.get('names_array'))
         if names is not None:
             kwargs['names_' + side] = names
         toks.append('names_%s=%s' % (side, enc_names(names)))
@@ -458,7 +486,7 @@ def dendro_case(desc):
     o = desc['opts']
     d = np.array(desc['dendrogram'], dtype=float)
     kwargs = {'dendrogram': d}
-    names = _names_from(desc.get('names'))
+    names = _names_arg(desc.get('names'), desc.get('names_array'))
     if names is not None:
         kwargs['names'] = names
     for k in ('rotate', 'rotate_names', 'reorder', 'n_clusters', 'color', 'width', 'height', 'margin', 'margin_text',
@@ -471,12 +499,16 @@ def dendro_case(desc):
         kwargs['colors'] = {int(k): x for k, x in v} if kind == 'D' else (list(v) if kind == 'L' else np.array(v))
         cl = [x for _, x in v] if kind == 'D' else list(v)
         colors_tok = 'colors=' + (';'.join(enc_str(x) for x in cl) if cl else '-')
+    d = d.reshape((-1, 4)) if d.size == 0 else d
+    kwargs['dendrogram'] = d
     try:
-        cut = cut_straight(d, o.get('n_clusters', 2), return_dendrogram=False)
+        with np.errstate(all='ignore'):
+            cut = cut_straight(d, o.get('n_clusters', 2), return_dendrogram=False)
+        cut_tok = 'cut=' + (','.join(str(int(x)) for x in cut) if len(cut) else '-')
     except Exception:
-        return None
+        cut_tok = 'cut=_'           # cut_straight (external) raised: so does the drawing function
     toks = ['merges=' + (';'.join('%d,%d' % (int(r[0]), int(r[1])) for r in d) if len(d) else '-'),
-            'cut=' + (','.join(str(int(x)) for x in cut) if len(cut) else '-'), 'names=' + enc_names(names),
+            cut_tok, 'names=' + enc_names(names),
             'rotate=%d' % int(o.get('rotate', False)), 'rotate_names=%d' % int(o.get('rotate_names', True)),
             'reorder=%d' % int(o.get('reorder', False))]
     if 'color' in o:
@@ -497,19 +529,23 @@ def dendro_case(desc):
     return cases
 
 
-def _mk_case(cmd, entry, desc, toks, ans, doc, content, spec=True):
+def _mk_case(cmd, entry, desc, toks, ans, doc, content, spec=True, run=True, spec_extra=()):
     args = ' '.join(toks)
-    run = 'c20.%s %s' % (cmd, args)
+    run = 'c20.%s %s' % (cmd, args) if run else None
     sig = {'entry': entry}
     sig.update(desc.get('sig', {}))
     cases = []
     if doc is None:
-        cases.append(Case((cmd, args), sig, run, ans, None, False, desc))
+        cases.append(Case((cmd, args), sig, 'c20.%s %s' % (cmd, args), ans, None, False, desc))
         return cases
     impl = 'ok ' + enc_doc(canon(doc))
     spec_line = None
     if spec:
-        spec_line = 'c20.spec_%s %s expat=%d doc=%s' % (cmd, args, int(expat_ok(doc)), enc_doc(doc))
+        spec_line = 'c20.spec_%s %s %s expat=%d doc=%s' % (cmd, args, ' '.join(spec_extra), int(expat_ok(doc)),
+                                                        enc_doc(doc))
+    else:
+        # outside the domain of the count statement: the returned string must still be a well-formed document
+        spec_line = 'c20.wf expat=%d doc=%s' % (int(expat_ok(doc)), enc_doc(doc))
     nontrivial = ('<path' in doc) or any(c in NEEDS_SANITISING for nm in _all_names(desc) for c in nm)
     cases.append(Case((cmd, args), sig, run, impl, spec_line, nontrivial, desc, canon='doc'))
     if content is not None:
@@ -529,6 +565,9 @@ def _all_names(desc):
 def _same(c, model, impl, spec_ok):
     if c.canon == 'doc' and model.startswith('ok ') and impl.startswith('ok '):
         return canon(dec_doc(model[3:])) == dec_doc(impl[3:])
+    if model.startswith('err ') and impl.startswith('err '):
+        # "raises iff raises" is what is compared; the exception class belongs to numpy / scipy, not to the property
+        return True
     return False
 
 
@@ -954,6 +993,283 @@ def hostile_sweep(ctx, full=True):
     return descs
 
 
+# -- degenerate / malformed stream: every raise site and boundary of the three entry points ------------------------
+def _g(n, edges, weights=None, **kw):
+    """a fixed graph description (storage order as given)"""
+    rows = [[] for _ in range(n)]
+    for k, (i, j) in enumerate(edges):
+        rows[i].append((j, 1 if weights is None else weights[k]))
+    indptr, indices, data = [0], [], []
+    for r in rows:
+        for j, w in r:
+            indices.append(j)
+            data.append(w)
+        indptr.append(len(indices))
+    d = {'f': 'visualize_graph', 'n': n, 'indptr': indptr, 'indices': indices, 'data': data,
+         'position': [[0, 0], [1, 0], [2, 1], [0, 2], [2, 2]][:n], 'opts': {}, 'file': False}
+    d.update(kw)
+    return d
+
+
+def _names(*strs):
+    return [['s', [ord(c) for c in x]] for x in strs]
+
+
+PATH3 = [(0, 1), (1, 0), (1, 2), (2, 1)]
+
+
+def degenerate_graph_descs():
+    out = []
+
+    def add(opts=None, **kw):
+        d = _g(3, PATH3, **kw)
+        d['opts'] = dict(opts or {})
+        d['sig'] = {'stream': 'degenerate'}
+        out.append(d)
+    # labels
+    for lab in (['L', [-1, -1, -1]], ['A', [-1, -1, -1]], ['L', [0, -1, -1]], ['D', []], ['D', [[5, 1]]], ['D', [[0, -1]]],
+                ['L', [0, 1, 2, 3]], ['L', [0, 1]], ['A', [0, 1, 2, 3]], ['A', [0, 1]], ['L', []]):
+        for lc in (None, ['L', []], ['D', []], ['L', ['red']]):
+            o = {'labels': lab}
+            if lc is not None:
+                o['label_colors'] = lc
+            add(o)
+    # scores
+    for sc in (['D', []], ['L', []], ['A', []], ['D', [[5, 1.0]]], ['A', [1, 2, 3, 4]], ['A', [1, 2]], ['L', [1, 2]],
+               ['L', [1, 2, 3, 4]], ['A', [7, 7, 7]], ['D', [[0, 1.0], [2, 1.0]]]):
+        add({'scores': sc})
+    # names of the wrong length, of every container type
+    for nm in ([], ['a'], ['a', 'b<'], ['a', 'b', 'c', 'd&']):
+        for arr in (False, True, 'str'):
+            for npos in ('right', 'left', 'above'):
+                add({'name_position': npos}, names=_names(*nm), names_array=arr)
+    add({}, names=_names('a\x00', 'b', 'c\x00\x00'), names_array='str')
+    add({}, names=_names('\ud800', 'b', '<'), names_array='str')
+    # edge labels out of range / without colours
+    for el in ([[-1, 0, 1]], [[0, 3, 1]], [[3, 0, 1]], [[0, -1, 1]], [[0, 1, 1], [0, 5, 2]], [[0, 2, -7]], [[0, 2, 1], [0, 2, 1]]):
+        add({'edge_labels': el})
+        add({'edge_labels': el, 'label_colors': ['L', []]})
+        add({'edge_labels': el, 'label_colors': ['D', []]})
+    # membership
+    half = [[0, 0.5], [1, 0.5]]
+    add({'probs': ['dense', 2, [[], [], []]]})
+    add({'probs': ['sparse', 2, [[[0, 0]], [], []]]})
+    add({'probs': ['dense', 2, [[[0, 1]], [[1, 1]], half]], 'label_colors': ['D', [[0, 'red']]]})
+    add({'probs': ['dense', 2, [[[0, 1]], [[1, 1]]]]})                      # fewer rows than nodes
+    add({'probs': ['dense', 2, [[[0, 1]], [[1, 1]], [[0, 1]], [[1, 1]]]]})   # more rows
+    add({'probs': ['dense', 0, [[], [], []]]})
+    add({'probs': ['dense', 12, [[[11, 1]], [[0, 0.5], [11, 0.5]], []]]})     # more labels than colours
+    add({'probs': ['dense', 2, [half, [[1, 1]], []]], 'label_colors': ['L', []]})
+    add({'probs': ['dense', 2, [half, [[1, 1]], []]], 'labels': ['A', [0, 0, 1]]})
+    add({'probs': ['dense', 3, [[[2, 1]], [[1, 1]], []]], 'labels': ['A', [0, -1, 1]], 'label_colors': ['L', ['red']]})
+    # canvas
+    for w, h in ((None, None), (0, 0), (None, 0), (0, None), (0, 300), (400, 0)):
+        add({'width': w, 'height': h, 'directed': True})
+    add({'scale': 0, 'directed': True})
+    add({'scale': -1})
+    # node order
+    for order in ([0], [0, 0, 0, 0], [2, 0], [0, 5], [], [1, 1]):
+        add({'node_order': order})
+        add({'node_order': order, 'probs': ['dense', 2, [[[0, 0.5], [1, 0.5]], [[1, 1]], []]]})
+    # layout / shape mismatches
+    add(position=[[0, 0], [1, 0]])
+    add(position=[[0, 0], [1, 0], [2, 1], [3, 3]])
+    add({}, position=[[0, 0], [1, 0]], names=_names('a', 'b', 'c'))
+    out.append({'f': 'visualize_graph', 'n': 0, 'indptr': [0], 'indices': [], 'data': [], 'position': [], 'opts': {},
+                'file': False, 'sig': {'stream': 'degenerate'}})
+    out.append({'f': 'visualize_graph', 'n': 3, 'indptr': None, 'indices': None, 'data': None, 'position': None,
+                'opts': {}, 'file': False, 'sig': {'stream': 'degenerate'}})
+    out.append({'f': 'visualize_graph', 'n': 1, 'indptr': [0, 0], 'indices': [], 'data': [], 'position': [[5, 5]],
+                'names': _names('only'), 'opts': {'directed': True}, 'file': True, 'sig': {'stream': 'degenerate'}})
+    out.append({'f': 'visualize_graph', 'n': 1, 'indptr': [0, 1], 'indices': [0], 'data': [1], 'position': [[5, 5]],
+                'opts': {'edge_labels': [[0, 0, 1]]}, 'file': False, 'sig': {'stream': 'degenerate'}})
+    return out
+
+
+def degenerate_bigraph_descs():
+    out = []
+    base = {'shape': [2, 3], 'indptr': [0, 2, 4], 'indices': [0, 1, 1, 2], 'data': [-1, 1, 2, -3]}
+
+    def add(opts=None, **kw):
+        d = {'f': 'visualize_bigraph', 'opts': dict({'reorder': False}, **(opts or {})), 'file': False,
+             'sig': {'stream': 'degenerate'}}
+        d.update(base)
+        d.update(kw)
+        out.append(d)
+    add()
+    for w, h in ((None, None), (0, 0), (None, 0), (0, None), (0, 300), (400, None)):
+        add({'width': w, 'height': h})
+    add({'scale': 0})
+    add({'scores_row': ['D', [[0, 1.0], [1, 2.0]]], 'scores_col': ['D', [[0, 1.0], [1, 2.0], [2, 3.0]]]})
+    add({'scores_row': ['D', [[1, 2.0]]], 'scores_col': ['D', [[0, 1.0]]]})
+    add({'scores_row': ['D', [[1, 2.0]]]})
+    add({'scores_row': ['D', []], 'scores_col': ['L', [1, 2, 3]]})
+    add({'scores_row': ['L', [1, 2]], 'scores_col': ['D', []]})
+    add({'scores_col': ['A', [1, 2]]})
+    add({'labels_row': ['D', []]})
+    add({'labels_row': ['L', [-1, -1]], 'label_colors': ['L', []]})
+    add({'labels_col': ['L', [0, 1]]})
+    add({'labels_col': ['A', [0, -1, 2]], 'label_colors': ['D', []]})
+    add({'probs_row': ['dense', 2, [[], []]]})
+    add({'probs_col': ['dense', 2, [[[0, 1]], [[0, 0.5], [1, 0.5]], []], 'label_colors': ['D', [[0, 'red']]]})
+    add({'probs_row': ['dense', 2, [[[0, 0.5], [1, 0.5]]]]})
+    add({'edge_labels': [[2, 0, 1]]})
+    add({'edge_labels': [[0, 3, 1]]})
+    add({'edge_labels': [[0, 2, 1], [0, 0, 3]], 'label_colors': ['L', []]})
+    add({'edge_labels': [[0, 2, 1], [0, 2, 1], [1, 1, -4]]})
+    for nm in ([], ['a'], ['a', 'b<', 'c']):
+        for arr in (False, 'str'):
+            add(names_row=_names(*nm), names_array=arr)
+            add(names_col=_names(*nm), names_array=arr)
+    add(shape=[0, 2], indptr=[0], indices=[], data=[])
+    add(shape=[2, 0], indptr=[0, 0, 0], indices=[], data=[])
+    add(shape=[0, 0], indptr=[0], indices=[], data=[])
+    add(shape=[1, 1], indptr=[0, 1], indices=[0], data=[0])
+    return out
+
+
+def degenerate_dendro_descs():
+    out = []
+    D = [[0, 1, 1, 2], [2, 3, 2, 3]]
+
+    def add(d=D, opts=None, **kw):
+        x = {'f': 'visualize_dendrogram', 'dendrogram': d, 'opts': dict(opts or {}), 'file': False,
+             'sig': {'stream': 'degenerate'}}
+        x.update(kw)
+        out.append(x)
+    for rotate in (False, True):
+        for colors in (['L', []], ['D', []], ['A', []], ['L', ['red']]):
+            for k in (1, 2, 3):
+                add(opts={'colors': colors, 'n_clusters': k, 'rotate': rotate})
+        for k in (0, 4, 5, -1):
+            add(opts={'n_clusters': k, 'rotate': rotate})
+        for nm in ([], ['a'], ['a', 'b'], ['a', 'b', 'c', 'd<']):
+            for arr in (False, 'str'):
+                add(opts={'rotate': rotate, 'rotate_names': not rotate}, names=_names(*nm), names_array=arr)
+        add(d=[], opts={'rotate': rotate})
+        add(d=[], opts={'rotate': rotate, 'n_clusters': 1}, names=_names('a'))
+        add(d=[[0, 0, 1, 2], [2, 3, 2, 3]], opts={'rotate': rotate})          # a child used twice
+        add(d=[[0, 7, 1, 2], [2, 3, 2, 3]], opts={'rotate': rotate})          # a child that does not exist
+        add(d=[[3, 2, 1, 2], [0, 1, 2, 3]], opts={'rotate': rotate})          # a merge used before it is made
+        add(d=[[0, 1, 1, 2], [0, 2, 2, 3]], opts={'rotate': rotate})          # a leaf merged again
+        add(d=[[0, 1, 1, 2], [3, 2, 1, 3]], opts={'rotate': rotate, 'reorder': True})   # equal heights
+        add(d=[[0, 1, 0, 2]], opts={'rotate': rotate})                        # height 0: division by zero
+    return out
+
+
+# -- deterministic option matrix: every display option at least once per run ------------------------------------------
+def option_matrix_descs():
+    out = []
+    # G1: unsorted column indices, a stored zero, a negative weight; G2: a symmetric triangle with a pendant node
+    g1 = dict(n=4, indptr=[0, 3, 5, 6, 7], indices=[2, 1, 3, 0, 2, 3, 1], data=[2, -1, 0, 1, 3, 1, 0.5])
+    g2 = dict(n=4, indptr=[0, 2, 5, 7, 8], indices=[1, 2, 0, 2, 3, 0, 1, 1], data=[1, 2, 1, 3, 1, 2, 3, 1])
+    pos = [[0, 0], [1, 0], [0, 1], [1, 0]]          # nodes 1 and 3 coincide
+    names = _names('a<b', 'q"\'', 'x\x01y', 'caf\u00e9')
+    probs = ['dense', 3, [[[0, 0.5], [1, 0.5]], [[2, 1]], [], [[0, 0.25], [1, 0.25], [2, 0.5]]]]
+    sprobs = ['sparse', 3, [[[0, 0.5], [1, 0], [2, 0.5]], [[2, 1]], [[1, 0]], [[0, 1], [1, 0]]]]
+    single = [
+        {}, {'name_position': 'left'}, {'name_position': 'right'}, {'name_position': 'above'},
+        {'name_position': 'below'}, {'name_position': 'diagonal'},
+        {'labels': ['L', [0, 1, -1, 12]]}, {'labels': ['A', [3, 3, 0, 1]]}, {'labels': ['D', [[2, 1], [0, 4]]]},
+        {'labels': ['L', [0, 1, 2, 3]], 'label_colors': ['L', ['red']]},
+        {'labels': ['L', [0, 1, 2, 3]], 'label_colors': ['L', ['red', 'blue', '#00ff00']]},
+        {'labels': ['L', [0, 1, 2, 3]], 'label_colors': ['D', [[1, 'red'], [3, 'blue']]]},
+        {'scores': ['L', [0.5, 1, 2, -1]]}, {'scores': ['A', [1, 1, 1, 1]]}, {'scores': ['D', [[1, 0.5], [2, 7]]]},
+        {'labels': ['L', [0, 1, 2, 3]], 'scores': ['L', [1, 2, 3, 4]]},
+        {'probs': probs}, {'probs': sprobs}, {'probs': probs, 'labels': ['A', [0, 1, 2, 3]]},
+        {'probs': probs, 'label_colors': ['L', ['red', 'blue']]}, {'probs': probs, 'scores': ['L', [1, 2, 3, 4]]},
+        {'seeds': [0, 2]}, {'seeds': [[1, 0], [3, 1]]}, {'seeds': []}, {'seeds': 2},
+        {'width': 200, 'height': None}, {'width': None, 'height': 150}, {'width': 64, 'height': 0},
+        {'width': 300, 'height': 100}, {'margin': 0}, {'margin': 50}, {'margin_text': 10}, {'scale': 2}, {'scale': 0.5},
+        {'node_order': [3, 2, 1, 0]}, {'node_order': [1, 3, 0, 2], 'probs': probs},
+        {'node_size': 3}, {'node_size': 30}, {'node_size_min': 2}, {'node_size_max': 40},
+        {'display_node_weight': True}, {'display_node_weight': True, 'node_size_max': 40, 'margin': 5},
+        {'node_weights': [1, 2, 3, 4]}, {'node_weights': [1, 2, 3, 4], 'display_node_weight': False},
+        {'node_weights': [2, 2, 2, 2]}, {'node_width': 2}, {'node_width_max': 6, 'seeds': [0]},
+        {'node_color': 'red'}, {'node_color': '#ff0000'}, {'display_edges': False},
+        {'display_edges': False, 'edge_labels': [[0, 1, 1]]},
+        {'edge_labels': [[0, 1, 1]]}, {'edge_labels': [[3, 0, 2]]}, {'edge_labels': [[0, 1, 1], [3, 0, 2], [1, 3, 5], [2, 2, 0]]},
+        {'edge_labels': [[0, 1, 1], [1, 3, 13]], 'label_colors': ['L', ['red', 'blue']]},
+        {'edge_labels': [[0, 1, 1], [1, 3, 2]], 'label_colors': ['D', [[0, 'red'], [2, 'blue']]]},
+        {'edge_width': 3}, {'edge_width_min': 1, 'edge_width_max': 5, 'display_edge_weight': True},
+        {'display_edge_weight': True}, {'display_edge_weight': False}, {'edge_color': 'blue'}, {'edge_color': 'rgb(1, 2, 3)'},
+        {'font_size': 8}, {'font_size': 20, 'name_position': 'above'},
+    ]
+    k = 0
+    for g in (g1, g2):
+        for o in single:
+            for directed in ((None, True) if g is g2 else (None, False)):
+                k += 1
+                oo = dict(o)
+                if directed is not None:
+                    oo['directed'] = directed
+                d = {'f': 'visualize_graph', 'position': pos, 'opts': oo, 'file': k % 7 == 0, 'alias': k % 11 == 0,
+                     'names': names if k % 3 else None, 'names_array': [False, True, 'str'][k % 3],
+                     'dtype': 'float', 'sig': {'stream': 'option-matrix'}}
+                d.update(g)
+                out.append(d)
+    # bigraph
+    b1 = dict(shape=[2, 3], indptr=[0, 3, 5], indices=[2, 0, 1, 1, 2], data=[1, -2, 0, 3, 0.5])
+    nr, nc = 2, 3
+    prow = ['dense', 2, [[[0, 0.5], [1, 0.5]], [[1, 1]]]]
+    pcol = ['sparse', 2, [[[0, 1], [1, 0]], [], [[0, 0.5], [1, 0.5]]]]
+    bsingle = [
+        {}, {'reorder': True}, {'labels_row': ['L', [0, 11]]}, {'labels_col': ['D', [[2, 1]]]},
+        {'labels_row': ['A', [1, -1]], 'labels_col': ['L', [0, 1, 2]], 'label_colors': ['L', ['red', 'blue']]},
+        {'scores_row': ['L', [1, 2]]}, {'scores_col': ['A', [1, 1, 5]]},
+        {'scores_row': ['L', [1, 2]], 'scores_col': ['L', [0, 5, 9]]},
+        {'scores_row': ['D', [[0, 1.0], [1, 2.0]]], 'scores_col': ['D', [[0, 1.0], [1, 2.0], [2, 3.0]]]},
+        {'probs_row': prow}, {'probs_col': pcol}, {'probs_row': prow, 'probs_col': pcol},
+        {'probs_row': prow, 'label_colors': ['L', ['red']]}, {'seeds_row': [1]}, {'seeds_col': [[0, 1], [2, 1]]},
+        {'position_row': [[0, 0], [0, 1]], 'position_col': [[1, 0], [1, 1], [0, 0]]},
+        {'width': 200, 'height': None}, {'width': None, 'height': 150}, {'margin': 0, 'margin_text': 10}, {'scale': 2},
+        {'node_size': 3, 'node_size_min': 2, 'node_size_max': 30, 'display_node_weight': True},
+        {'node_weights_row': [1, 5], 'node_weights_col': [1, 1, 3], 'display_node_weight': True},
+        {'node_width': 2, 'node_width_max': 5, 'seeds_row': [0]}, {'color_row': 'red', 'color_col': 'blue'},
+        {'display_edges': False}, {'edge_labels': [[0, 2, 1], [1, 0, 3], [0, 0, 12]]},
+        {'edge_labels': [[0, 2, 1]], 'label_colors': ['D', [[1, 'red']]]}, {'edge_width': 3, 'display_edge_weight': False},
+        {'edge_width_min': 1, 'edge_width_max': 4}, {'edge_color': 'blue'}, {'edge_color': None}, {'font_size': 20},
+    ]
+    for k, o in enumerate(bsingle):
+        oo = dict({'reorder': False}, **o)
+        d = {'f': 'visualize_bigraph', 'opts': oo, 'file': k % 5 == 0, 'alias': k % 7 == 0,
+             'names_row': _names('r<1', 'r\x022') if k % 2 == 0 else None,
+             'names_col': _names('c&1', '', '\ud83d\ude00') if k % 3 != 1 else None,
+             'names_array': [False, True, 'str'][k % 3], 'sig': {'stream': 'option-matrix'}}
+        d.update(b1)
+        out.append(d)
+    # dendrogram
+    D = [[1, 2, 1, 2], [0, 4, 1.5, 3], [3, 5, 2, 4]]
+    dsingle = [
+        {}, {'rotate': True}, {'rotate_names': False}, {'rotate': True, 'rotate_names': False}, {'reorder': True},
+        {'reorder': True, 'rotate': True}, {'n_clusters': 1}, {'n_clusters': 3}, {'n_clusters': 4},
+        {'color': 'green'}, {'colors': ['L', ['red', 'blue']], 'n_clusters': 3},
+        {'colors': ['D', [[0, 'red'], [1, 'blue']]]}, {'colors': ['A', ['red']], 'n_clusters': 3},
+        {'width': 200, 'height': 100}, {'margin': 0, 'margin_text': 10}, {'scale': 2}, {'line_width': 0.5},
+        {'font_size': 20}, {'font_size': 8, 'rotate': True},
+    ]
+    for k, o in enumerate(dsingle):
+        out.append({'f': 'visualize_dendrogram', 'dendrogram': D, 'opts': dict(o), 'file': k % 4 == 0, 'alias': k % 6 == 0,
+                    'names': _names('a<b', 'x\x01', 'q"', 'caf\u00e9') if k % 3 != 2 else None,
+                    'names_array': [False, True, 'str'][k % 3], 'sig': {'stream': 'option-matrix'}})
+    return out
+
+
+# -- positions closer than the resolution of float64 after rescaling --------------------------------------------------
+def near_coincident_descs():
+    out = []
+    base = dict(n=3, indptr=[0, 1, 2, 2], indices=[1, 0], data=[1, 1])
+    for eps, tag in ((2.0 ** -60, '2^-60'), (2.0 ** -50, '2^-50'), (2.0 ** -700, '2^-700'), (1e-17, '1e-17')):
+        for pos, near in (([[0, 0], [eps, 0], [1, 1]], [[0, 1]]), ([[0, 0], [0, eps], [1, 1]], [[0, 1]]),
+                          ([[1, 1], [1 + eps * 2 ** 53, 1], [0, 0]], [[0, 1]])):
+            for directed in (True, False):
+                d = {'f': 'visualize_graph', 'position': pos, 'near': near, 'opts': {'directed': directed},
+                     'file': False, 'sig': {'positions': 'sub-resolution', 'eps': tag}}
+                d.update(base)
+                out.append(d)
+    return out
+
+
 BUILDERS = {'visualize_graph': graph_case, 'visualize_bigraph': bigraph_case, 'visualize_dendrogram': dendro_case}
 
 
@@ -1016,7 +1332,7 @@ def locale_cases(ctx, descs=None):
     import sys
     root = getattr(ctx, 'overlay_root', None) or getattr(getattr(ctx, 'ctx', None), 'overlay_root', None)
     if root is None:
-        return []
+        raise core.ToolFailure('no overlay root: the second configuration (ASCII locale) cannot be run')
     tools = os.path.join(core.VERIF, 'tools')
     code = 'import sys; sys.path[:0] = [%r, %r]; from harness import c20; c20.worker_main()' % (root, tools)
     env = dict(os.environ)
@@ -1044,10 +1360,22 @@ def run(ctx):
         in_locale = [d for d in descs if (d.get('sig') or {}).get('locale')]
         descs = [d for d in descs if not (d.get('sig') or {}).get('locale')]
         descs += hostile_sweep(ctx)
+        for name, extra in (('degenerate', degenerate_graph_descs() + degenerate_bigraph_descs() + degenerate_dendro_descs()),
+                            ('option-matrix', option_matrix_descs()), ('near-coincident', near_coincident_descs())):
+            ctx.count('stream:' + name, len(extra))
+            descs += extra
         descs += gen_graph_cases(ctx)
         descs += gen_bigraph_cases(ctx)
         descs += gen_dendro_cases(ctx)
-        evaluate(ctx, cases_of(descs) + locale_cases(ctx, in_locale + locale_descs()))
+        SKIPS.clear()
+        cases = cases_of(descs) + locale_cases(ctx, in_locale + locale_descs())
+        for why, k in SKIPS.items():
+            ctx.count('skipped:' + why, k)
+            ctx.note('%d case(s) skipped: %s' % (k, why))
+        for c in cases:      # which exits were reached (goes into the evidence)
+            if str(c.impl).startswith('err '):
+                ctx.count('exit:%s:%s' % (c.sig.get('entry'), c.impl[4:]))
+        evaluate(ctx, cases)
     finally:
         cleanup()
 
